@@ -40,7 +40,7 @@ Definition oracle_step (script : nat -> option fault) (pre : obs) (st : sstep) :
          step_faulted script pre post || match rep with ROk => true | _ => false end)
       else
         (* unlocking an unlocked agent is an error *)
-        match rep with RErr ENotLocked => untouched pre post | _ => false end
+        match rep with RErr _ => untouched pre post | _ => false end
   | Lock p =>
       if o_locked pre then is_err_reply rep && untouched pre post
       else
